@@ -175,6 +175,9 @@ func checkDiff(c *mc.Ctx, t1, t2 *storedTable, pk []int, desc string) (events in
 
 var c04keys = []string{"", "a", "b", "c", "d", "e", "f"}
 
+// component-wise byte order: "" < a < "a b" < a!c < "a,b" < a- < b; any order computed on joined keys differs
+var c04hostileKeys = []string{"", "a", "a b", "a!c", "a,b", "a-", "b"}
+
 func c04rows(mask, modMask int, layout int) [][]string {
 	var rows [][]string
 	for i, k := range c04keys {
@@ -196,6 +199,8 @@ func c04rows(mask, modMask int, layout int) [][]string {
 				g = "q"
 			}
 			rows = append(rows, []string{g, k, v})
+		case 5: // composite key whose first components are prefixes of one another followed by bytes around ','
+			rows = append(rows, []string{c04hostileKeys[i], "s", v})
 		default:
 			rows = append(rows, []string{k, v})
 		}
@@ -210,7 +215,7 @@ func c04B3(c *mc.Ctx) {
 	needRewrite("blocksize:table")
 	m1 := c.Choose(128)
 	m2 := c.Choose(128)
-	layout := c.ChooseDev(5) // 0: key first; 1: key second; 2: keyless; 3,4: composite keys with tying first components
+	layout := c.ChooseDev(6) // 0: key first; 1: key second; 2: keyless; 3,4: composite keys with tying first components; 5: composite key with prefix-related first components
 	c.Shard()
 	cols := []string{"k", "v"}
 	pk := []int{0}
@@ -220,7 +225,7 @@ func c04B3(c *mc.Ctx) {
 		pk = []int{1}
 	case 2:
 		pk = nil
-	case 3, 4:
+	case 3, 4, 5:
 		cols = []string{"g", "k", "v"}
 		pk = []int{0, 1}
 	}
@@ -411,7 +416,7 @@ func init() {
 	register(&mc.Check{
 		ID:    "C04",
 		Level: "exploration",
-		Rule: "scaled block size 3 (build-time overlay): ALL 16384 ordered pairs of key subsets of a 7-key universe (tables of 0..7 rows = 0..3 blocks, empty tables on either side, disjoint / interleaved / nested / identical ranges), each with modification patterns over the common keys {none, each single key, first+last, all}, key column first (default), second, no key, or a composite key whose first component ties across block boundaries (deviations); " +
+		Rule: "scaled block size 3 (build-time overlay): ALL 16384 ordered pairs of key subsets of a 7-key universe (tables of 0..7 rows = 0..3 blocks, empty tables on either side, disjoint / interleaved / nested / identical ranges), each with modification patterns over the common keys {none, each single key, first+last, all}, key column first (default), second, no key, or a composite key whose first component ties across block boundaries or whose first components are prefixes of one another followed by bytes around ',' (deviations); " +
 			"real block size: tables that are unions of key segments of sizes {1,127,128,254,255,256(,1,40)} - all 16384 (thorough 65536) ordered pairs, with and without the edge rows of every segment modified; cli: `wrgl diff --no-gui` on 12 branch pairs. " +
 			"Each pair is ingested by the real ingest and diffed by the real DiffTables; the event list is compared with the set model (exactly one added / removed / modified per key, nothing for identical rows, no key twice, Offset/OldOffset resolving to the row with that key and hash, error channel empty). " +
 			"evaluations = table pairs; counter diffs = DiffTables runs; non-trivial = both tables non-empty and at least one event; distinct by pair",
